@@ -26,7 +26,7 @@ import vlib
 THEOREMS = ["C18_fold_one_to_one", "C18_fold_count", "C18_fold_kinds", "C18_fold_starts_at_first_token",
             "C18_fold_wf", "C18_fold_laminar", "C18_fold_source_order",
             "C18_outline_file_list", "C18_outline_of_file", "C18_outline_entry", "C18_outline_children_order",
-            "C18_outline_children_distinct"]
+            "C18_outline_children_distinct", "C18_outline_slice_replays", "C18_outline_slice_file_list"]
 TRUSTED = [
     "Coq 8.16.1 kernel; vm_compute only in the Examples; no axioms (Print Assumptions: closed under the global context)",
     "shared green-tree model coq/model/Tree.v (ranges derived from leaf byte lengths; descendants() = preorder nodes; "
@@ -40,8 +40,10 @@ TRUSTED = [
     "(group symmap: arenas as lists, IndexMap/HashMap as association lists, per-file list, interval map); tied to the code by replaying "
     "the REAL op log (hook H3, --cfg tablegen_lsp_verif) in the extracted model and comparing its document symbols (name, typ, range, kind, "
     "children) with the real handler's on every generated workspace; the Type strings are not in the log and are taken from the final state",
-    "which ops the indexer emits for a declaration (index.rs) is exercised, not proven, here: that is the generator oracle "
-    "(expected outline known by construction)",
+    "hand model coq/model/OutlineIndex.v of the outline-relevant slice of index.rs (Class/Def/Defset/MultiClass/TemplateArgDecl/FieldDef/"
+    "FieldLet/ParentClassList arms) over the typed AST CoreAst.v (bridge harness/src/bin/coreast.rs, group scope): tied by comparing its op "
+    "sequence with the projection of the REAL op log onto the ops document_symbol depends on, and its outline with the real handler's; that this "
+    "slice yields the outline the STATEMENT describes for every program is covered by the generator oracle (expected outline known by construction), not by proof",
 ]
 
 
@@ -88,7 +90,7 @@ def fold_cases_from_texts(ctx, bindir, exe, sk_index, texts, label, stats, fails
 
 def run(ctx):
     t0 = time.time()
-    bindir = vlib.build_harness(False, bins=["parsedump", "idedump"])
+    bindir = vlib.build_harness(False, bins=["parsedump", "idedump", "coreast"])
     bindir_h = vlib.build_harness(True, bins=["outdump"])
     fails = vlib.proof_step(ctx, "TG.Props.C18", THEOREMS, ["props/C18.vo"], trusted_base=TRUSTED,
                             translators=["t_tokens", "t_foldkinds"])
@@ -149,6 +151,13 @@ def run(ctx):
     sym_bad, sym_stats = L.sym_compare(exe, sk_index, list(zip(wss, dumps)), want_hover=False, want_hints=False)
     stats.update(sym_stats)
     for b in sym_bad:
+        found["corr"].append(dict(b, source="generated", text=dict((x, y) for x, y in b["files"]).get(b.get("file", b["root"]), "")))
+    # indexer slice (OutlineIndex.v): typed AST of the real trees (harness coreast) -> its op sequence vs the projection of the
+    # real op log, and the outline it determines vs the real handler
+    cas = L.coreast(bindir, [{"files": w["files"], "root": w["root"]} for w in wss])
+    oix_bad, oix_stats = L.oix_compare(exe, list(zip(wss, dumps, cas)))
+    stats.update(oix_stats)
+    for b in oix_bad:
         found["corr"].append(dict(b, source="generated", text=dict((x, y) for x, y in b["files"]).get(b.get("file", b["root"]), "")))
     # the same texts through the tree-level comparison (model, reference)
     gen_texts = [t for w in wss for (_f, t) in w["files"]]
@@ -241,6 +250,8 @@ def run(ctx):
     ctx.cov["oracle_failures"] = len(found["oracle"])
     ctx.cov["correspondence_disagreements"] = len(found["corr"])
     ctx.cov["traces_validated_against_impl"] = stats["fold_texts"] + stats.get("sym_workspaces", 0)
+    ctx.cov["indexer_slice_workspaces"] = stats.get("oix_workspaces", 0)
+    ctx.cov["indexer_slice_ops_compared"] = stats.get("oix_ops", 0)
     ctx.cov["op_logs_replayed"] = stats.get("sym_workspaces", 0)
     ctx.cov["ops_replayed"] = stats.get("sym_ops", 0)
     smp = []
